@@ -211,6 +211,20 @@ class Check(FormulaCheck):
             host_list = list(xs)
             g = self.ev('LARGE(v_list,v_k)', v_list=host_list, v_k=k)
             self.expect('C11/LARGE:differs-from-definition', finite(g) and close(g, sorted(map(Fr, xs), reverse=True)[k - 1]), items=xs, k=k, got=g, host=True)
+            # the very same list object named twice, and a grid whose rows are one aliased row: items count as often as they are named
+            alias = list(xs)
+            self.e.bind(v_list=alias, v_grid=[alias, alias], v_deep=[alias, [alias, 1]])
+            for fn, ref in (('SUM', 2 * sum(map(Fr, xs))), ('COUNT', 2 * n), ('MAX', max(map(Fr, xs))), ('AVERAGE', mean(xs)), ('MEDIAN', None)):
+                for f in ('%s(v_list,v_list)' % fn, '%s(v_grid)' % fn):
+                    g = self.ev(f)
+                    if ref is None:
+                        s2 = sorted(list(map(Fr, xs)) * 2)
+                        refv = (s2[n - 1] + s2[n]) / 2
+                    else:
+                        refv = ref
+                    self.expect('C11/%s:same-host-list-named-twice' % fn, near(g, refv, data_tolerance(xs) * 2), formula=f, items=xs, got=g, expected=float(refv))
+            g = self.ev('SUM(v_deep)')
+            self.expect('C11/SUM:same-host-list-named-twice', near(g, 2 * sum(map(Fr, xs)) + 1, data_tolerance(xs) * 2), formula='SUM(v_deep)', items=xs, got=g)
             # ... and the items are still in the host's order: a later aggregate that pairs them with criteria cells by position sees the same list
             self.expect('C11/host-list-reordered-by-an-aggregate:LARGE', host_list == list(xs), before=xs, after=host_list)
             if n >= 2:
